@@ -34,23 +34,30 @@ from bounded._c12_sched import (
 
 BOUNDS = (
     "Real dns.versioned.Zone on real threads under a controlled scheduler (threading.Lock/"
-    "Event inside dns.versioned replaced by a shim; one thread runs at a time).  Writer "
-    "transactions are non-commutative (append to a shared TXT log, add an own A node, delete "
-    "the predecessor's node; kinds: commit, replacement commit, rollback after changes, "
-    "commit without changes, rollback without changes); a reader opens a snapshot, dumps "
-    "it twice with a scheduling point in between, and ends.  EXHAUSTIVE (stateless DFS, "
-    "every interleaving at lock-acquire / lock-release / Event.wait granularity): quick = "
-    "all 2-writer kind pairs (25 configs), 2 writers + 1 reader (4 configs), 3 single-txn "
-    "writers for 6 kind triples, and a thread doing two transactions against one other "
-    "writer; thorough adds all 125 kind triples of 3 writers, 3 writers + 1 reader (3 "
-    "configs), 2 writers x 2 txns, 2 writers + 2 readers, 4 writers (one config, budget "
-    "permitting).  LINE LEVEL (sys.settrace pre-emption before every line of Zone.writer, "
+    "Event inside dns.versioned replaced by a shim; one thread runs at a time, the schedule is "
+    "the only nondeterminism).  Writer transactions are non-commutative (append to a shared "
+    "TXT log, add an own A node, delete the predecessor's node; kinds: c commit, C replacement "
+    "commit, r rollback after changes, e commit without changes, x rollback without changes); "
+    "a reader opens a snapshot, dumps it twice with a scheduling point in between, and ends.  "
+    "EXHAUSTIVE at lock-acquire / Event.wait granularity (stateless DFS over every order of "
+    "lock acquisitions; steps that touch no shared state are not branched on): quick = all 25 "
+    "kind pairs of 2 writers, 33 kind triples of 3 writers, 2 writers + 1 reader (4 configs), "
+    "1 writer + 2 readers, threads doing two transactions (5 configs), 4 writers, and 3 "
+    "writers + 1 reader (1 config, 4914 schedules, run last); thorough adds all 125 kind "
+    "triples, 3 writers + 1 reader (4 configs), 4 writers (4 configs), 2 writers + 2 readers "
+    "(26880 schedules), threads with 2-3 transactions with and without a reader.  LINE LEVEL "
+    "(sys.monitoring pre-emption before every source line of Zone.writer, "
     "_maybe_wakeup_one_waiter_unlocked, _end_write(_unlocked), _commit_version(_unlocked), "
-    "Transaction._setup_version, WritableVersion.__init__): exhaustive DFS with at most 2 "
-    "pre-emptions for 2 and 3 writers (quick: 2 configs; thorough: 8 configs, bound 3 for 2 "
-    "writers), plus seeded random schedules of 4-6 threads (quick 250, thorough 6000; "
-    "mixed uniform/sticky choice).  Not covered: unfair OS schedulers, writers that never "
-    "end their transaction, real pre-emption inside a bytecode (A-gil), more than 6 threads."
+    "Transaction._setup_version, WritableVersion.__init__): exhaustive DFS with a bounded "
+    "number of pre-emptions -- quick: 2 writers and 2 writers + reader with <= 2, 3 writers "
+    "with <= 1; thorough: 2 writers with <= 3 (3 configs), 3 writers with <= 2 (3 configs, ~17000 "
+    "schedules each), 2 writers + reader and a two-transaction thread with <= 2, 4 writers "
+    "with <= 1 -- plus seeded random schedules of 4-6 threads (0-2 readers, 1-2 transactions per "
+    "writer; quick 600, thorough 15000; uniform and sticky choice mixed).  Measured: quick "
+    "~12000 schedules in ~30 s, thorough ~145000 schedules in ~400 s.  Not covered: unfair OS "
+    "schedulers and writers that never end their transaction (liveness needs fairness), "
+    "pre-emption inside a bytecode (A-gil), more than 6 threads, line-level schedules beyond "
+    "the pre-emption bound."
 )
 
 IN = dns.rdataclass.IN
